@@ -41,6 +41,11 @@ class SimDeadlock(BaseException):
     """
 
 
+class SimHang(BaseException):
+    """Raised by the runner's wall-clock alarm when one run does not come back (an operation of the library that never returns).
+    The budget is far above the cost of any legitimate run; the report is confirmed by replaying in a fresh interpreter."""
+
+
 class Chooser:
     """Seeded PRNG; one per run. All generation-time choices go through it."""
 
@@ -154,8 +159,13 @@ class Trace:
             return
         raise v
 
+    def calling(self, label):
+        """Worlds name the library operation they are about to call; used to label a run that never comes back."""
+        self.hang_label = label
+
     def ev(self, node, kind, summary=""):
         """Append one canonical line to the run's event log."""
+        self.last_ev = f"{node}_{kind}"
         if isinstance(summary, bytes):
             summary = hashlib.sha256(summary).hexdigest()[:16]
         line = f"{self.n_events} {self.sim_time:.6f} {node} {kind} {summary}"
